@@ -4,6 +4,7 @@ import (
 	"fmt"
 	"go/token"
 	"go/types"
+	"sort"
 	"strings"
 
 	"golang.org/x/tools/go/ssa"
@@ -568,6 +569,136 @@ func checkC04(c *Ctx) {
 		c.c04FirstPlus(local)
 	}
 	c.c04VerbatimTags()
+	c.c04Pure(naming)
+}
+
+// c04Pure: the name of a mailbox is a function of the address and the configured naming mode
+// and of nothing else — not of the addresses parsed before. The functions the naming functions
+// run keep no state between calls: they write no package-level variable, read none that
+// anything but an initialiser writes, and an object drawn from a sync.Pool is reset before it is
+// used for anything (a scratch buffer that keeps a rejected address's bytes on the error paths
+// prefixes them to the next name).
+func (c *Ctx) c04Pure(naming []*ssa.Function) {
+	r, p := c.R, c.P
+	rule := "C04/PURE/no-carried-state"
+	r.Rule(rule, "the functions the naming functions run write no package-level variable, read none that is written outside an initialiser, and reset an object drawn from a sync.Pool before any other use of it")
+	roots := append([]*ssa.Function{}, naming...)
+	for _, nm := range [][2]string{{"pkg/policy", "ParseEmailAddress"}, {"pkg/policy", "ValidateDomainPart"}} {
+		if f := p.Func(nm[0], nm[1]); f != nil {
+			roots = append(roots, f)
+		}
+	}
+	if nr := p.Method("pkg/policy", "Addressing", "NewRecipient"); nr != nil {
+		roots = append(roots, nr)
+	}
+	var fns []*ssa.Function
+	for g := range p.SyncReach(roots...) {
+		if pk := eng.FuncPkgPath(g); pk == eng.Mod+"/pkg/policy" || pk == eng.Mod+"/pkg/stringutil" {
+			fns = append(fns, g)
+		}
+	}
+	for _, g := range roots {
+		fns = append(fns, g)
+	}
+	sortFuncs(fns)
+	// globals written outside initialisers
+	mutable := map[*ssa.Global]string{}
+	for _, rel := range []string{"pkg/policy", "pkg/stringutil"} {
+		for _, g := range pkgFuncs(p, rel) {
+			if g.Name() == "init" || strings.HasPrefix(g.Name(), "init#") {
+				continue
+			}
+			g := g
+			eng.EachInstr(g, func(in ssa.Instruction) {
+				if st, ok := in.(*ssa.Store); ok {
+					if gl, ok := st.Addr.(*ssa.Global); ok {
+						mutable[gl] = p.InstrPos(in)
+					}
+				}
+			})
+		}
+	}
+	var probs []string
+	seen := map[*ssa.Function]bool{}
+	for _, g := range fns {
+		if seen[g] {
+			continue
+		}
+		seen[g] = true
+		g := g
+		eng.EachInstr(g, func(in ssa.Instruction) {
+			switch x := in.(type) {
+			case *ssa.Store:
+				if gl, ok := x.Addr.(*ssa.Global); ok {
+					probs = append(probs, shortFn(g)+" writes the package variable "+gl.Name()+" at "+p.InstrPos(in))
+				}
+			case *ssa.UnOp:
+				if gl, ok := x.X.(*ssa.Global); ok && x.Op == token.MUL {
+					if at, isMut := mutable[gl]; isMut {
+						probs = append(probs, shortFn(g)+" reads the package variable "+gl.Name()+" ("+p.InstrPos(in)+"), which is written at "+at)
+					}
+				}
+			case *ssa.Call:
+				if eng.CalleeName(x.Common()) != "(*sync.Pool).Get" {
+					return
+				}
+				// the drawn object: the call's value through a type assertion
+				objs := []ssa.Value{x}
+				if x.Referrers() != nil {
+					for _, ref := range *x.Referrers() {
+						if ta, ok := ref.(*ssa.TypeAssert); ok {
+							objs = append(objs, ta)
+						}
+					}
+				}
+				var reset ssa.Instruction
+				for _, o := range objs {
+					if o.Referrers() == nil {
+						continue
+					}
+					for _, ref := range *o.Referrers() {
+						if rc, ok := ref.(*ssa.Call); ok && !rc.Call.IsInvoke() && len(rc.Call.Args) > 0 && rc.Call.Args[0] == o {
+							if cal := eng.StaticCallee(rc.Common()); cal != nil && (cal.Name() == "Reset" || cal.Name() == "Truncate") {
+								if reset == nil || eng.Dominates(rc, reset) {
+									reset = rc
+								}
+							}
+						}
+					}
+				}
+				bad := ""
+				for _, o := range objs {
+					if o.Referrers() == nil {
+						continue
+					}
+					for _, ref := range *o.Referrers() {
+						switch ref.(type) {
+						case *ssa.DebugRef, *ssa.TypeAssert:
+							continue
+						case *ssa.Defer:
+							continue // the deferred hand-back
+						}
+						if ref == reset {
+							continue
+						}
+						if reset == nil || !eng.Dominates(reset, ref) {
+							bad = p.InstrPos(ref)
+						}
+					}
+				}
+				if bad != "" {
+					probs = append(probs, shortFn(g)+" uses an object drawn from a sync.Pool at "+bad+" without having reset it first: what an earlier call left in it (a rejected address's bytes on an error path) becomes part of this call's result")
+				}
+			}
+		})
+	}
+	sort.Strings(probs)
+	probs = dedupStrings(probs)
+	if len(probs) > 0 {
+		r.Bad(rule, "naming-functions", "", "the mailbox name can depend on earlier calls: %s", strings.Join(probs, "; "))
+	} else {
+		r.Ok(rule, "naming-functions", "", "%d functions behind the naming functions keep no state between calls", len(seen))
+	}
 }
 
 // c04VerbatimTags: a canonicaliser that copies a constant verbatim into the name — the
